@@ -101,6 +101,48 @@ def check_op(acc, key, fn, expected, left_cls, inp, wrap=None):
         acc.violation(f'{key}:wrong-value{tag}', 'op', inp, show(r), f'{expected!r} deg', key)
 
 
+def rich_objects(rng, x):
+    """objects denoting x or something within a rounding unit of it that are NOT in normal form: built directly
+    with minutes/seconds fields of 60 and more, results of round/neg/abs/%, negative zero. The constructors accept all
+    of them, so they are angle objects of the classes in the property's quantifier."""
+    out = []
+    ax = abs(x)
+    d = int(ax)
+    mfull = (ax - d) * 60
+    m = int(mfull)
+    sec = (mfull - m) * 60
+    neg = x < 0
+
+    def add(lbl, fn):
+        try:
+            out.append((lbl, fn()))
+        except Exception:  # noqa  (an operand that cannot be built is not an operand)
+            pass
+    sg = -1 if neg else 1
+    # un-normalised fields: the same angle with a minute or degree "borrowed"
+    if m >= 1:
+        add(f'DMSAngle({sg * d}, {m - 1}, {sec + 60!r}, positive={not neg})',
+            lambda: A.DMSAngle(d, m - 1, sec + 60, positive=not neg))
+        add(f'DDMAngle({sg * d}, {mfull!r}) [direct]', lambda: A.DDMAngle(d, mfull, positive=not neg))
+    if d >= 1:
+        add(f'DMSAngle({d - 1}, {m + 60}, {sec!r}, positive={not neg})',
+            lambda: A.DMSAngle(d - 1, m + 60, sec, positive=not neg))
+        add(f'DDMAngle({d - 1}, {mfull + 60!r}, positive={not neg})',
+            lambda: A.DDMAngle(d - 1, mfull + 60, positive=not neg))
+    add(f'DMSAngle({d}, {m}, {sec!r}, positive={not neg})', lambda: A.DMSAngle(d, m, sec, positive=not neg))
+    # results of operations
+    for c in ('DMS', 'DDM', 'DEC', 'GON'):
+        for n_ in (0, 1, 3, 6):
+            add(f'round({c}({x!r}), {n_})', lambda c=c, n_=n_: round(make(c, x), n_))
+    for c in OBJ:
+        add(f'-(-{c}({x!r}))', lambda c=c: -(-make(c, x)))
+        add(f'{c}({x!r}) + {c}(0.0)', lambda c=c: make(c, x) + make(c, 0.0))
+        add(f'abs({c}({abs(x)!r}))', lambda c=c: abs(make(c, abs(x))) if not neg else -abs(make(c, abs(x))))
+    for c in ('DMS', 'DDM'):
+        add(f'{c}({x!r}) % 720', lambda c=c: make(c, x) % 720 if not neg else -(make(c, -x) % 720))
+    return out
+
+
 def ops_worker(job):
     k, n = job
     rng = random.Random(f'{seed()}:C12:ops:{k}')
@@ -131,6 +173,33 @@ def ops_worker(job):
                     acc.violation(f'cmp:same-angle:{ca}+{cb}:wrong', 'cmp', inp, 'not equal', 'equal', 'eq')
             except Exception as e:  # noqa
                 acc.violation(f'cmp:same-angle:{ca}+{cb}:raises:{type(e).__name__}', 'cmp', inp, str(e), 'a bool', 'eq')
+        # comparisons between operands that are not in normal form (and their normal forms): values tie or nearly tie,
+        # which is where an ordering that does not go through the decimal-degree values shows
+        if rng.random() < 0.5:
+            xr = x
+            if rng.random() < 0.5:   # just below a minute / degree boundary: rounding produces a 60 in a field
+                dd, mm_ = rng.randrange(360), rng.choice([59, rng.randrange(60)])
+                xr = (dd + mm_ / 60 + (60 - rng.choice([4e-4, 4e-7, 0.04, 0.4])) / 3600) * rng.choice([1, -1])
+            rich = rich_objects(rng, xr)
+            norm = [(f'{c}({xr!r})', make(c, xr)) for c in OBJ]
+            pairs = [(p_, q_) for p_ in rich for q_ in norm] + [(q_, p_) for p_ in rich for q_ in norm]
+            pairs += [(rich[i], rich[j]) for i in range(len(rich)) for j in range(len(rich)) if i != j][:40]
+            for (la, a), (lb, b) in pairs:
+                ca, cb = cls(a), cls(b)
+                try:
+                    da, db = a.dec(), b.dec()
+                except Exception:  # noqa
+                    continue
+                for name, f in CMP.items():
+                    acc.count('cmp')
+                    try:
+                        r = f(a, b)
+                        if r is not f(da, db):
+                            acc.violation(f'cmp:{name}:{ca}+{cb}:wrong:unnormalised', 'cmp', f'{la} , {lb}', repr(r),
+                                          f'{f(da, db)!r} (decimal degrees {da!r} vs {db!r})', name)
+                    except Exception as e:  # noqa
+                        acc.violation(f'cmp:{name}:{ca}+{cb}:raises:{type(e).__name__}:unnormalised', 'cmp', f'{la} , {lb}',
+                                      str(e), 'a bool', name)
         for c in OBJ:
             a = make(c, x)
             da = a.dec()
@@ -145,7 +214,7 @@ def ops_worker(job):
                 check_op(acc, f'op:div:{c}', lambda: a / kk, da / kk, c, inp + f' / {kk!r}')
             if c in ('DMS', 'DDM'):
                 km = rng.choice(KMOD)
-                check_op(acc, f'op:mod:{c}', lambda: a % km, da % km, c, inp + f' % {km!r}', wrap=km)
+                check_op(acc, f'op:mod:{c}', lambda: a % km, da % km, c, inp + f' % {km!r}')
             if c != 'HP':
                 n_ = rng.choice([None, 0, 1, 2, 3, 4, 5, 6, 7, 8, 9])
                 acc.count('round')
